@@ -302,6 +302,8 @@ impl<BE: DecryptWriteBackend> Packer<BE> {
     ///
     /// * If sending the message to the raw packer fails.
     pub fn add(&self, data: Bytes, id: BlobId) -> RusticResult<()> {
+        #[cfg(feature = "verif-hooks")]
+        crate::verif::yield_point("packer.add");
         self.sender.send((data, id)).map_err(|err| {
             RusticError::with_source(
                 ErrorKind::Internal,
@@ -503,6 +505,8 @@ impl<BE: DecryptWriteBackend> RawPacker<BE> {
     /// * If converting the header length to u32 fails
     /// * If the header could not be written
     fn save(&mut self) -> RusticResult<()> {
+        #[cfg(feature = "verif-hooks")]
+        crate::verif::yield_point("rawpacker.save");
         // write header
         let data = self.basic.header_bytes()?;
         // encrypt and write to pack file
@@ -783,14 +787,20 @@ impl<BE: DecryptWriteBackend> FileWriterHandle<BE> {
     // TODO: add documentation
     fn process(&self, load: (BytesList, PackId, IndexPack)) -> RusticResult<IndexPack> {
         let (file, id, mut index) = load;
+        #[cfg(feature = "verif-hooks")]
+        crate::verif::yield_point("writer.before_write");
         index.id = id;
         self.be
             .write_bytes(FileType::Pack, &id, self.cacheable, file)?;
         index.time = Some(Timestamp::now());
+        #[cfg(feature = "verif-hooks")]
+        crate::verif::yield_point("writer.after_write");
         Ok(index)
     }
 
     fn index(&self, index: IndexPack) -> RusticResult<()> {
+        #[cfg(feature = "verif-hooks")]
+        crate::verif::yield_point("writer.before_index");
         self.indexer.write().unwrap().add(index)?;
         Ok(())
     }
